@@ -397,7 +397,7 @@ func genScenario(t *rapid.T) sim.BScenario {
 	k := 0
 	var pending []int
 	for r := 1; r <= nreq; r++ {
-		st := sim.BStep{Op: "http", K: r}
+		st := sim.BStep{Op: "http", K: r, Chunked: rapid.IntRange(0, 5).Draw(t, "chunked") == 0}
 		switch rapid.IntRange(0, 19).Draw(t, "reqkind") {
 		case 0:
 			st.Method = rapid.SampledFrom([]string{"GET", "PUT", "DELETE"}).Draw(t, "method")
